@@ -45,6 +45,7 @@ func crlf(b []byte) []byte { return bytes.ReplaceAll(b, []byte("\n"), []byte("\r
 
 func genC06(c *Ctx) {
 	for _, f := range formats {
+		deliveryCases(c, f)
 		long := append(c.longLineInputs(f.name), c.boundaryInputs(f.name)...)
 		for i := 0; i < c.n(120)+len(long); i++ {
 			var data []byte
@@ -504,6 +505,8 @@ func genC11(c *Ctx) {
 // ---------------- C18 ----------------
 
 func genC18(c *Ctx) {
+	longStops(c)
+	canonLongStops(c)
 	for _, f := range formats {
 		big := c.boundaryInputs(f.name)
 		if len(big) > 6 {
